@@ -6,28 +6,27 @@
 
 package common
 
-// ───────────── the encoder primitives: content of what they append (extends the length contracts of zz_contracts_c06_verif.go) ─────────────
+// ───────────── the encoder primitives ─────────────
+// WHAT each primitive appends is specified in zz_contracts_c06_verif.go ([bytes] clauses: old content ++ seq(b) / Be16(d) / Be64Of(d)).
+// Added here (`extend`: extra obligations on those contracts): the first write into an empty buffer yields exactly the written bytes,
+// an append beyond the capacity allocates, and the buffer's block exists in the post-state (separates it from later allocations).
 
 //@ extend func (enc *Encoder) Write
 //@   property C07
-//@   ensures [seq] seq(enc.buf) == cat(old(seq(enc.buf)), old(seq(b)))
 //@   ensures [seq0] old(len(enc.buf)) == 0 ==> seq(enc.buf) == old(seq(b))
 //@   ensures [realloc] old(len(enc.buf)) + len(b) > old(cap(enc.buf)) ==> fresh(enc.buf)
 //@   ensures [alloc] allocated(enc.buf)
 
 //@ extend func (enc *Encoder) WriteUint16
 //@   property C07
-//@   ensures [seq] seq(enc.buf) == cat(old(seq(enc.buf)), Be16(d))
 //@   ensures [alloc] allocated(enc.buf)
 
 //@ extend func (enc *Encoder) WriteInt
 //@   property C07
-//@   ensures [seq] 0 <= d ==> seq(enc.buf) == cat(old(seq(enc.buf)), Be16(d))
 //@   ensures [alloc] allocated(enc.buf)
 
 //@ extend func (enc *Encoder) WriteUint64
 //@   property C07
-//@   ensures [seq] seq(enc.buf) == cat(old(seq(enc.buf)), Be64Of(d))
 //@   ensures [alloc] allocated(enc.buf)
 
 // ───────────── what the snapshot encoder writes ─────────────
